@@ -39,7 +39,7 @@ def register(PROPS, h):
         assumptions=SVC_TB + ["'known node announcement' is read in the weakest way: a valid, not-too-future node announcement of the announcer was fed earlier"],
         gates=dict(quick={"relays-observed": 8000, "relays-observed.of-multi-deliverer-announcement": 400, "fed.sig:forged-other-key": 1000, "fed.sig:valid-for-other-message": 500, "fed.ts:equal": 1000, "fed.ts:older": 1000,
                           "fed.ts:+60min-exactly": 1000, "fed.ts:+60min+1ms": 1000, "store-replacements-observed": 500, "stored-announcements-observed": 5000, "replays-on-subscribe-observed": 500},
-                   thorough={"relays-observed": 40000, "relays-observed.of-multi-deliverer-announcement": 4000}),
+                   thorough={"relays-observed": 40000, "relays-observed.of-multi-deliverer-announcement": 2000}),
         runs=dict(quick=[native("h-node", "C10")], thorough=[native("h-node", "C10"), native("h-node", "C10", profile="release")]),
     )
 
